@@ -198,14 +198,36 @@ def gen_scenario(rng, tier):
           "blksize": rng.choice([512, 4096, 8192, 65536]),
           "short_every": rng.choice([0, 0, 2, 5]),
           "all_perms": bool(tier == "thorough" and m <= 6
-                            and rng.random() < 0.5)}
+                            and rng.random() < 0.5),
+          "two_scales": rng.random() < 0.3}
     return {"scenario": sc, "chunks": chunks, "orders": orders}
 
 
 # --------------------------------------------------------------------------
 # execution
 
+def keys_of(sc):
+    return [KEY, "s1"] if sc.get("two_scales") else [KEY]
+
+
+def chunk_payload(c, ki):
+    """Payload of chunk descriptor c in scale number ki."""
+    return payload(c[4] + 7919 * ki, c[3])
+
+
 def make_info(sc):
+    import copy
+    info = _make_info1(sc)
+    if sc.get("two_scales"):
+        # same grid and sharding under another key: same shard numbers and
+        # file names in a sibling directory
+        s2 = copy.deepcopy(info["scales"][0])
+        s2["key"] = "s1"
+        info["scales"].append(s2)
+    return info
+
+
+def _make_info1(sc):
     mb, sb, pb = sc["bits"]
     return {
         "type": "image", "data_type": "uint8", "num_channels": 1,
@@ -262,17 +284,25 @@ def write_order(fs, sc, chunks, order, res, tag):
             res.violate("C05/store-fails", f"{tag}: PrecomputedIO raised "
                         f"{pio!r}")
             return False
-    for i in order["perm"]:
+    keys = keys_of(sc)
+    perm = order["perm"]
+    seq = [(0, i) for i in perm]
+    if len(keys) == 2:
+        # the second scale receives the same set in reverse arrival order,
+        # interleaved with the first
+        seq = [q for pair in zip(seq, [(1, i) for i in reversed(perm)])
+               for q in pair]
+    for ki, i in seq:
         x, y, z, nb, seed = chunks[i]
         co = coords(sc, (x, y, z))
-        buf = payload(seed, nb)
-        fs.log.add("STORE", i, co, nb)
+        buf = chunk_payload(chunks[i], ki)
+        fs.log.add("STORE", ki, i, co, nb)
         if pio is not None:
             dx, dy, dz = chunk_dims(sc, (x, y, z))
             arr = np.frombuffer(buf, dtype=np.uint8).reshape(1, dz, dy, dx)
-            st, v = sut(pio.write_chunk, arr, KEY, co)
+            st, v = sut(pio.write_chunk, arr, keys[ki], co)
         else:
-            st, v = sut(acc.store_chunk, buf, KEY, co)
+            st, v = sut(acc.store_chunk, buf, keys[ki], co)
         if st == "exc":
             res.violate("C05/store-fails",
                         f"{tag}: store of chunk {(x, y, z)} ({nb} B) raised "
@@ -289,19 +319,25 @@ def write_order(fs, sc, chunks, order, res, tag):
 def spec_check(fs, sc, chunks, res, tag):
     grid = sc["grid"]
     mb, sb, pb = sc["bits"]
-    stored = {tuple(c[:3]): payload(c[4], c[3]) for c in chunks}
-    absent = [p for p in itertools.product(*[range(g) for g in grid])
-              if p not in stored]
-    if len(absent) > 40:
-        step = len(absent) / 40.0
-        absent = [absent[int(j * step)] for j in range(40)]
-    pre = DS + "/" + KEY + "/"
-    names = [p[len(pre):] for p in fs.listing(DS) if p.startswith(pre)]
-    problems, notes = spec.check_scale(
-        lambda n: fs.get(pre + n), lambda: names, grid,
-        {"minishard_bits": mb, "shard_bits": sb, "preshift_bits": pb,
-         "minishard_index_encoding": sc["ienc"], "data_encoding": sc["denc"]},
-        stored, absent)
+    problems, notes = [], set()
+    for ki, key in enumerate(keys_of(sc)):
+        stored = {tuple(c[:3]): chunk_payload(c, ki) for c in chunks}
+        absent = [p for p in itertools.product(*[range(g) for g in grid])
+                  if p not in stored]
+        if len(absent) > 40:
+            step = len(absent) / 40.0
+            absent = [absent[int(j * step)] for j in range(40)]
+        pre = DS + "/" + key + "/"
+        names = [p[len(pre):] for p in fs.listing(DS) if p.startswith(pre)]
+        pr, nt = spec.check_scale(
+            lambda n, pre=pre: fs.get(pre + n), lambda names=names: names,
+            grid,
+            {"minishard_bits": mb, "shard_bits": sb, "preshift_bits": pb,
+             "minishard_index_encoding": sc["ienc"],
+             "data_encoding": sc["denc"]},
+            stored, absent)
+        problems += [(c_, f"[{key}] {m_}") for c_, m_ in pr]
+        notes |= nt
     seen = set()
     for code, msg in problems:
         if code in seen:
@@ -335,16 +371,19 @@ def own_reader_check(fs, sc, chunks, res, tag, via_pio):
             return 0
     compared = 0
     stored = set()
-    for x, y, z, nb, seed in chunks:
+    keys = keys_of(sc)
+    items = [(ki, c) for c in chunks for ki in range(len(keys))]
+    for ki, c in items:
+        x, y, z, nb, seed = c
         stored.add((x, y, z))
         co = coords(sc, (x, y, z))
-        want = payload(seed, nb)
+        want = chunk_payload(c, ki)
         if pio is not None:
-            st, v = sut(pio.read_chunk, KEY, co)
+            st, v = sut(pio.read_chunk, keys[ki], co)
             if st == "ok":
                 v = np.ascontiguousarray(v).tobytes()
         else:
-            st, v = sut(acc.fetch_chunk, KEY, co)
+            st, v = sut(acc.fetch_chunk, keys[ki], co)
         compared += 1
         if st == "exc":
             res.violate("C05/fetch-stored",
